@@ -136,8 +136,10 @@ inline std::string scope_monitor(const dsched::Result& r, const MonitorCfg& cfg)
     if (!leaf_completed.count(kv.first)) return kv.first + " never completed";
   }
   if (cfg.expect_stop) {
-    // The thread whose request_stop() set the stop bit runs the callbacks itself; its next step
-    // that is not on the stop source or inside a leaf's stop callback marks the return of
+    // The thread whose request_stop() set the stop bit runs the callbacks itself (and, inside them,
+    // possibly whole completions: v1 attach's stop callback can win the refcount_ election and
+    // complete the operation inline).  Its next step of its own program - the next close, the
+    // wait on the event, or the explicit `stopN.returned` marker - marks the return of
     // request_stop() (checkpoint).  Every started leaf must observe the stop request (its callback
     // runs, or its token is already stopped when it starts; a leaf caught in the middle of its
     // start registers its callback late and runs it inline) unless it completed before the
@@ -154,8 +156,9 @@ inline std::string scope_monitor(const dsched::Result& r, const MonitorCfg& cfg)
           stop_set = true; stopper = tid; continue;
         }
       }
-      bool leaf_cb = body.rfind("!leaf", 0) == 0 && has(body, ".stop_seen");
-      if (stop_set && !checked && tid == stopper && !is_stop_word && !leaf_cb) checked = true;
+      bool own_step = body.rfind("scope.opState N.", 0) == 0 || body.rfind("evt.state L.", 0) == 0 ||
+                      body.rfind("evt.state C.", 0) == 0 || (body.rfind("!stop", 0) == 0 && has(body, ".returned"));
+      if (stop_set && !checked && tid == stopper && own_step) checked = true;
       if (body.rfind("!leaf", 0) == 0) {
         std::string who = body.substr(1, body.find('.') - 1);
         if (has(body, ".start")) { started[who]++; if (has(body, "stop=1")) seen[who]++; else if (checked) return who + " started after request_stop() returned with a token that is not stopped"; }
